@@ -1,6 +1,7 @@
 import H2T.Render
 import H2T.Lemmas.RowExact
 import H2T.Lemmas.TableExact
+import H2T.Lemmas.TableRules
 
 /-! # C05 — table borders form a consistent box drawing
 
@@ -18,7 +19,11 @@ side with borders and every column got a positive width, then all lines of the t
 bottom rule of every row, nested tables included — have the same display width `Σ columns + (n − 1)`, the first and the
 last line are rules, and the lines in front of the table are untouched.  The hypothesis "every column has width" is
 necessary: a colspan over a zero-width column gives a ragged table (known finding C05-zero-width-column-in-colspan); the stacked
-fallback is covered by the correspondence and the grid oracle. -/
+fallback is covered by the correspondence and the grid oracle.  **The junctions of the whole table**
+(`regular_table_junctions`, `rule_between_rows_matches_bars`): when the cells hold no tables of their own, the table's lines
+are exactly rule, row, rule, …, rule, and the rule between two rows shows at every position the glyph for (a bar of the
+upper row stands here, a bar of the lower row stands here) — `┴`, `┬`, `┼` or `─` — with the first rule joined only from
+below and the last only from above; the bars of every row stand at column boundaries. -/
 
 namespace H2T.C05
 
@@ -206,5 +211,123 @@ example : regularRows 2 [.row {} [.cell {} 1 [.text {} [mkCh 97]], .cell {} 1 [.
 example : allocCols {} 20 (tableColsMax {} Deco.plain [.row {} [.cell {} 1 [.text {} [mkCh 97]], .cell {} 1 [.text {} [mkCh 98]]],
     .row {} [.cell {} 2 [.text {} [mkCh 99]]]] (List.replicate 2 {})) = .ok ([1, 1], false, 3) ∧ ∀ x ∈ [1, 1], 0 < x :=
   ⟨by rfl, by decide⟩
+
+/-! ## the junctions of the whole table -/
+
+theorem foldl_join_get (f : Seg → Seg) (hf : ∀ sg, f (f sg) = f sg) (g : Border → Nat → Border)
+    (hg : ∀ (b : Border) (j x : Nat), j < b.length → (g b j)[x]? = if x = j then b[x]?.map f else b[x]?)
+    (hlen : ∀ (b : Border) (j : Nat), j < b.length → (g b j).length = b.length) (js : List Nat) :
+    ∀ (b : Border) (x : Nat), (∀ j ∈ js, j < b.length) →
+    (js.foldl g b)[x]? = if x ∈ js then b[x]?.map f else b[x]? := by
+  induction js with
+  | nil => intro b x _; simp
+  | cons j js ih =>
+    intro b x hj
+    have hjl : j < b.length := hj j (by simp)
+    simp only [List.foldl_cons]
+    rw [ih (g b j) x (fun k hk => by rw [hlen b j hjl]; exact hj k (by simp [hk])), hg b j x hjl]
+    by_cases hxj : x = j
+    · subst hxj
+      simp only [if_true, List.mem_cons, true_or]
+      split
+      · cases b[x]? with
+        | none => rfl
+        | some sg => simp [hf]
+      · rfl
+    · simp only [hxj, if_false, List.mem_cons, false_or]
+
+theorem joinAbove_get (b : Border) (j x : Nat) (hj : j < b.length) :
+    (b.joinAbove j)[x]? = if x = j then b[x]?.map Seg.joinAbove else b[x]? := by
+  unfold Border.joinAbove Border.stretch
+  have : j + 1 - b.length = 0 := by omega
+  simp only [this, List.replicate_zero, List.append_nil, List.getElem?_modify]
+  by_cases hxj : x = j
+  · subst hxj; simp
+  · have : ¬ j = x := fun e => hxj e.symm
+    simp [hxj, this]
+
+theorem joinBelow_get (b : Border) (j x : Nat) (hj : j < b.length) :
+    (b.joinBelow j)[x]? = if x = j then b[x]?.map Seg.joinBelow else b[x]? := by
+  unfold Border.joinBelow Border.stretch
+  have : j + 1 - b.length = 0 := by omega
+  simp only [this, List.replicate_zero, List.append_nil, List.getElem?_modify]
+  by_cases hxj : x = j
+  · subst hxj; simp
+  · have : ¬ j = x := fun e => hxj e.symm
+    simp [hxj, this]
+
+/-- **the rule between two rows matches the bars**: at every position `x` of `ruleBetween W above below` stands the
+    segment whose glyph is the box-drawing character for (a bar of the upper row at `x`, a bar of the lower row at `x`) -/
+theorem rule_between_rows_matches_bars (W : Nat) (above below : List Nat) (x : Nat) (ha : ∀ j ∈ above, j < W) (hb : ∀ j ∈ below, j < W)
+    (hx : x < W) :
+    ∃ sg, (ruleBetween W above below)[x]? = some sg ∧ sg.glyph = glyphFor (decide (x ∈ above)) (decide (x ∈ below)) := by
+  unfold ruleBetween
+  have hl1 : (above.foldl Border.joinAbove (List.replicate W Seg.straight)).length = W := by
+    rw [foldl_join_len Border.joinAbove joinAbove_len _ _ (by simpa using ha)]; simp
+  rw [foldl_join_get Seg.joinBelow (by intro sg; cases sg <;> rfl) Border.joinBelow joinBelow_get joinBelow_len below _ x (by rw [hl1]; exact hb)]
+  rw [foldl_join_get Seg.joinAbove (by intro sg; cases sg <;> rfl) Border.joinAbove joinAbove_get joinAbove_len above _ x (by simpa using ha)]
+  have hs : (List.replicate W Seg.straight)[x]? = some Seg.straight := by simp [hx]
+  by_cases h1 : x ∈ above <;> by_cases h2 : x ∈ below <;> simp [h1, h2, hs, Seg.joinAbove, Seg.joinBelow, Seg.glyph, glyphFor]
+
+/-- **the junctions of a regular table** (side by side, borders, every column with width, rows tile the columns, no tables
+    inside the cells): up to the tags of the rules the table's lines are `tableLayout W D []` — rule, row, rule, …, rule
+    with `ruleBetween` the rows' bar positions — for row data `D` whose text lines all have the table's width and whose
+    bars all stand at column boundaries (`RowOk`); with `rule_between_rows_matches_bars` every junction glyph is right -/
+theorem regular_table_junctions (cfg : Cfg) (d : Deco) (hov : cfg.overflow = false) (hdb : cfg.drawBorders = true)
+    (cols : List SizeEst) (rows : List Op) (t t' : RS) (ws : List Nat) (tw : Nat)
+    (ha : allocCols cfg t.cur.width cols = .ok (ws, false, tw)) (hpos : ∀ x ∈ ws, 0 < x) (hne : 0 < ws.length)
+    (hwf : wfRows rows = true) (hreg : regRows ws.length rows = true) (htf : rowsTableFree rows = true) (hf : t.cur.Fits)
+    (he : runOp SubR.widthMinus cfg d t (.table cols rows) = .ok t') :
+    ∃ s1 D, t.cur.startBlock = .ok s1 ∧
+      t'.cur.lines.map untag = s1.lines.map untag ++ tableLayout (ws.sum + (ws.length - 1)) D [] ∧
+      ∀ e ∈ D, RowOk ws (ws.sum + (ws.length - 1)) e :=
+  table_rules cfg d hov hdb cols rows t t' ws tw ha hpos hne hwf hreg htf hf he
+
+/-- the same for a table node of a render tree: `regularRows` (every row tiles the `n` columns) and `rowsNoTable` (no tables
+    inside the cells) are properties of the tree -/
+theorem regular_table_node_junctions (cfg : Cfg) (d : Deco) (hd : DecoOk d) (hov : cfg.overflow = false) (hdb : cfg.drawBorders = true)
+    (rows : List RNode) (n : Nat) (t t' : RS) (ws : List Nat) (tw : Nat)
+    (ha : allocCols cfg t.cur.width (tableColsMax cfg d rows (List.replicate n {})) = .ok (ws, false, tw))
+    (hpos : ∀ x ∈ ws, 0 < x) (hn : 0 < n) (hreg : regularRows n rows = true) (hnt : rowsNoTable rows = true) (hf : t.cur.Fits)
+    (he : runOps SubR.widthMinus cfg d t (compile cfg d (.table {} rows n)) = .ok t') :
+    ∃ s1 D, t.cur.startBlock = .ok s1 ∧
+      t'.cur.lines.map untag = s1.lines.map untag ++ tableLayout (ws.sum + (n - 1)) D [] ∧
+      ∀ e ∈ D, RowOk ws (ws.sum + (n - 1)) e := by
+  have hlen : ws.length = n := by
+    obtain ⟨ws2, v2, tw2, e, l, _⟩ := allocCols_total' cfg t.cur.width (tableColsMax cfg d rows (List.replicate n {}))
+    rw [ha] at e
+    injection e with e
+    simp only [Prod.mk.injEq] at e
+    obtain ⟨rfl, _, _⟩ := e
+    rw [l, tableColsMax_length]; simp
+  have hso : styleOpen d {} = [] := rfl
+  have hsc : styleClose d {} = [] := rfl
+  simp only [compile, hso, hsc, List.nil_append, List.append_nil, runOps] at he
+  cases h1 : runOp SubR.widthMinus cfg d t (.table (tableColsMax cfg d rows (List.replicate n {})) (compileRows cfg d rows)) with
+  | error e => simp [h1, andThen] at he
+  | ok t1 =>
+    simp only [h1, andThen_ok_eq] at he
+    injection he with he; subst he
+    have := table_rules cfg d hov hdb _ _ t t1 ws tw ha hpos (by omega) (compileRows_wf cfg d hd rows)
+      (by rw [hlen]; exact compileRows_reg cfg d n rows hreg) (compileRows_tableFree cfg d rows hnt) hf h1
+    rw [hlen] at this
+    exact this
+
+/-- the bars of a row that is `RowOk` lie inside the rule: the hypothesis of `rule_between_rows_matches_bars` -/
+theorem rowOk_bars_inside (ws : List Nat) (hpos : ∀ x ∈ ws, 0 < x) (e : List Nat × List RLine) (h : RowOk ws (ws.sum + (ws.length - 1)) e) :
+    ∀ j ∈ e.1, j < ws.sum + (ws.length - 1) := by
+  intro j hj
+  obtain ⟨k, k1, k2, k3⟩ := h.2 j hj
+  have h1 : (ws.take k).sum + (ws.drop k).sum = ws.sum := by
+    have := List.sum_append (l₁ := ws.take k) (l₂ := ws.drop k)
+    rw [List.take_append_drop] at this; omega
+  have h2 : 0 < (ws.drop k).sum := by
+    apply sum_pos_of_pos
+    · intro x hx; exact hpos x (List.mem_of_mem_drop hx)
+    · intro hh; have := congrArg List.length hh; simp at this; omega
+  omega
+
+/-! non-vacuity: between a row with a bar at 3 and a row with bars at 3 and 7 (width 10) the rule reads ───┼───┬── -/
+example : (ruleBetween 10 [3] [3, 7]).map Seg.glyph = [0x2500, 0x2500, 0x2500, 0x253c, 0x2500, 0x2500, 0x2500, 0x252c, 0x2500, 0x2500] := by decide
 
 end H2T.C05
